@@ -12,7 +12,8 @@ import torch.nn.functional as F
 from torch import nn
 
 F64 = torch.float64
-DT = {'f32': torch.float32, 'f64': torch.float64, 'bf16': torch.bfloat16}
+DT = {'f32': torch.float32, 'f64': torch.float64, 'bf16': torch.bfloat16,
+      'f16': torch.float16}
 
 
 # ------------------------------------------------------------------- data
